@@ -560,7 +560,22 @@ def run_requests(ctx, sess, drv, stream, reqs, tally, targets=None, cross_target
     targets = sess.targets if targets is None else targets
     secs = ctx.extra.setdefault("seconds", {})
     t0 = time.time()
-    both = [ref_outcome(r.bop, r.gt.expr, r.marg, with_text=True) for r in reqs]
+    # serbuf of ONE value object into many capacities (C05's sweep): the reference serializes the value once
+    ser_memo, max_memo = {}, {}
+
+    def ref_of(r):
+        if r.bop != "serbuf":
+            return ref_outcome(r.bop, r.gt.expr, r.marg, with_text=True)
+        e = r.gt.expr
+        if id(e) not in max_memo:
+            max_memo[id(e)] = R.bounds(e)[1]
+        if r.marg[1] * 8 < max_memo[id(e)]:
+            return ("err", "buffer-too-small"), ("err:buffer-too-small",) * 2
+        k = (id(e), id(r.marg[0]))
+        if k not in ser_memo:
+            ser_memo[k] = ref_outcome("ser", e, r.marg[0], with_text=True)
+        return ser_memo[k]
+    both = [ref_of(r) for r in reqs]
     want_ref = [b[0] for b in both]
     texts = [b[1] for b in both]
     secs["reference"] = round(secs.get("reference", 0) + time.time() - t0, 2)
